@@ -110,8 +110,20 @@ func runC20(c *Ctx) {
 			r.Bad("C20.R1", fid, "uses-EqualObjects", p.Pos(fn.Pos()), "the duplicate detector no longer calls model.EqualObjects")
 		}
 	}
-	// ---- R2: EqualObjects
-	if fn := p.Func("pkg/pdfcpu/model.EqualObjects"); fn == nil {
+	// ---- R2: EqualObjects (or the worker it forwards to: EqualObjects(o1, o2, x, pairs) = equalObjects(o1, o2, x, pairs, 0))
+	eqRefs := map[string]bool{"pkg/pdfcpu/model.EqualObjects": true}
+	eqFn := p.Func("pkg/pdfcpu/model.EqualObjects")
+	if eqFn != nil && len(eqFn.Blocks) == 1 {
+		for _, ins := range eqFn.Blocks[0].Instrs {
+			if call, ok := ins.(*ssa.Call); ok {
+				if g := staticCallee(call); g != nil && isSubject(g) && g.Object() != nil {
+					eqRefs[objRef(g.Object())] = true
+					eqFn = g
+				}
+			}
+		}
+	}
+	if fn := eqFn; fn == nil {
 		r.Bad("C20.R2", "pkg/pdfcpu/model.EqualObjects", "anchor", "", "UNRESOLVED-ANCHOR")
 	} else {
 		// (a) null case: on the edge o1 == nil the returned bool is `o2 == nil`
@@ -224,7 +236,7 @@ func runC20(c *Ctx) {
 			if !ok {
 				return
 			}
-			if _, ref := callRef(call); ref != "pkg/pdfcpu/model.EqualObjects" {
+			if _, ref := callRef(call); !eqRefs[ref] {
 				return
 			}
 			if !inLexicalLoop(call.Block()) {
